@@ -338,7 +338,8 @@ void encode_imm(struct instr *instrc) {
     return;
   }
   // return register used for imm instructions sub, sbb, add, adc
-  if (TYPE(instrc->key, OPERATION))
+  // (the short accumulator form, not for a memory operand based on rax)
+  if (TYPE(instrc->key, OPERATION) && !instrc->mem_disp)
     encode_imm_operation(instrc);
   // vector shift instrctions
   if ((instrc->opd[0].reg & MODE_MASK) == mmx64)
@@ -348,7 +349,7 @@ void encode_imm(struct instr *instrc) {
     if (IN_RANGE(instrc->cons, NEG32BIT + 1, NEG64BIT)) {
       DO_NOT_PAD(instrc->cons, instrc->reduced_imm, MAX_UNSIGNED_32BIT);
     }
-    if ((instrc->opd[0].reg & REG_MASK) == al)
+    if ((instrc->opd[0].reg & REG_MASK) == al && !instrc->mem_disp)
       instrc->key++;
     // 16 to 64 bit register and 8 bit immediate combination
   } else if (instrc->op_offset == 1 && !TYPE(instrc->key, DATA_TRANSFER)) {
